@@ -622,12 +622,15 @@ def gen_gammatone(g, tree):
             and isinstance(fb[-1], ast.Return)):
         raise Untranslatable("_calculate_temp_support: `if n == 1: .. else: ..; return ..` expected")
     head = [s for s in fb[:-2]]
+    eps_term = None
     for s in head:
+        if isinstance(s, ast.Assign) and ast.unparse(s.targets[0]) == "eps":
+            eps_term = CX().tr(s.value)
+            continue
         if not (isinstance(s, ast.Assign) and ast.unparse(s) in (
-                "alpha = self._alphas[idx]", "c = self._cs[idx]", "offset = self._offsets[idx]", "n = self._order",
-                "eps = config.EFFECTIVE_SUPPORT_THRESHOLD")):
+                "alpha = self._alphas[idx]", "c = self._cs[idx]", "offset = self._offsets[idx]", "n = self._order")):
             raise Untranslatable("_calculate_temp_support: unexpected statement " + ast.unparse(s))
-    if "eps = config.EFFECTIVE_SUPPORT_THRESHOLD" not in [ast.unparse(s) for s in head]:
+    if eps_term is None:
         raise Untranslatable("_calculate_temp_support: eps")
 
     def h_call(ex_, e):
@@ -642,7 +645,7 @@ def gen_gammatone(g, tree):
             return "(gt_d c alpha n %s)" % ex_.tr(e.args[0])
         raise Untranslatable("_d call")
 
-    pre = [("eps", "threshold")]
+    pre = [("eps", eps_term)]
     br1 = strip_doc(fb[-2].body)
     if len(br1) != 1 or not isinstance(br1[0], ast.Assign) or ast.unparse(br1[0].targets[0]) != "right":
         raise Untranslatable("order-1 branch")
@@ -653,7 +656,7 @@ def gen_gammatone(g, tree):
     g.add("order 1: `right` (the integral float under `int(.)`)", "gt_right_order1", [("c", A), ("alpha", A)], A,
           render(pre, exo.tr(v.args[0])))
     br2 = strip_doc(fb[-2].orelse)
-    if not (len(br2) == 4 and isinstance(br2[0], ast.FunctionDef) and br2[0].name == "_d"
+    if not (len(br2) == 4 and isinstance(br2[0], ast.FunctionDef)
             and [a.arg for a in br2[0].args.args] == ["t"] and isinstance(br2[3], ast.While)):
         raise Untranslatable("Newton branch: def _d / right / h_0 / while expected")
     dbody = strip_doc(br2[0].body)
@@ -663,7 +666,7 @@ def gen_gammatone(g, tree):
     dl = exd.lets(dbody[:-1])
     g.add("`_d(t)`: derivative of the envelope", "gt_d", [("c", A), ("alpha", A), ("n", A), ("t", A)], A,
           render(prune(dl, [dbody[-1].value.id]), dbody[-1].value.id))
-    calls = {"np.abs(": h_call, "_d(": d_call}
+    calls = {"np.abs(": h_call, br2[0].name + "(": d_call}
     exn = CX(calls=calls)
     if not (isinstance(br2[1], ast.Assign) and ast.unparse(br2[1].targets[0]) == "right"):
         raise Untranslatable("Newton start")
